@@ -211,7 +211,13 @@ func buildC18(model, parts, shape, appMode string, variant int) *c18Case {
 			v4 := "*filter\n:INPUT DROP\n:FORWARD DROP\n"
 			for i, p := range v4Shape {
 				id := fmt.Sprintf("10.4.0.%d", uid())
-				v4 += fmt.Sprintf("-A INPUT -s %s -j %s\n", id, act(p, "ACCEPT", "DROP"))
+				if variant >= 2 {
+					// Netspoc's own spelling: target first, conditions
+					// behind it (a conditional DROP does not end in "-j DROP").
+					v4 += fmt.Sprintf("-A INPUT -j %s -s %s\n", act(p, "ACCEPT", "DROP"), id)
+				} else {
+					v4 += fmt.Sprintf("-A INPUT -s %s -j %s\n", id, act(p, "ACCEPT", "DROP"))
+				}
 				add("-s "+id+" ", "v4", false, p, "INPUT", i)
 			}
 			c.Files["router"] = v4 + "COMMIT\nip route add 10.99.0.0/16 via 10.0.0.2\n"
